@@ -2012,12 +2012,13 @@ int32_t pstm_mod(psPool_t *pool, const pstm_int *a, const pstm_int *b, pstm_int 
         pstm_clear(&t);
         return err;
     }
-    if (t.sign != b->sign)
+    if (pstm_iszero(&t) != PSTM_YES && t.sign != b->sign)
     {
         err = pstm_add(&t, b, c);
     }
     else
     {
+        /* (a zero remainder stays zero also for a negative modulus) */
         pstm_exch(&t, c);
     }
     pstm_clear(&t);
